@@ -36,12 +36,28 @@ Lemma reaches_shared_out_of_fuel :
   site_guarded deep_table ("A"%string, true, ["call:b"%string]) = false.
 Proof. repeat split; vm_compute; reflexivity. Qed.
 
-(* the access sequence of every method of *SchemaCache is the one Conc.v mirrors *)
-Lemma cache_methods_agree : ConcGen.cache_methods = expected_cache_methods.
+(* the access sequence of every method of *SchemaCache is the one Conc.v mirrors — up to where
+   RefSchema.To is READ inside the critical section (ConcSites.v says why that cannot matter;
+   census_projected_reads below is the side condition) *)
+Lemma cache_methods_agree : project_tab ConcGen.cache_methods = expected_cache_methods.
 Proof. vm_compute. reflexivity. Qed.
 
-Lemma placeholder_functions_agree : ConcGen.placeholder_functions = expected_placeholder_functions.
+Lemma placeholder_functions_agree : project_tab ConcGen.placeholder_functions = expected_placeholder_functions.
 Proof. vm_compute. reflexivity. Qed.
+
+(* the projection drops nothing but reads of To: lock operations, map accesses, writes, hooks and
+   calls of the raw table all survive it, in order *)
+Lemma project_keeps : forall t toks, is_projected_read t = false -> In t toks -> In t (project toks).
+Proof.
+  intros t toks Ht Hin. unfold project. apply filter_In. split; [exact Hin | rewrite Ht; reflexivity].
+Qed.
+
+Lemma project_only_drops_to_reads : forall t toks, In t toks -> ~ In t (project toks) -> t = "read:To"%string.
+Proof.
+  intros t toks Hin Hn. destruct (is_projected_read t) eqn:E.
+  - unfold is_projected_read in E. apply String.eqb_eq in E. exact E.
+  - exfalso. apply Hn. apply project_keeps; assumption.
+Qed.
 
 Lemma codec_entry_points_agree : ConcGen.codec_entry_points = expected_codec_entry_points.
 Proof. vm_compute. reflexivity. Qed.
@@ -65,6 +81,22 @@ Proof. vm_compute. reflexivity. Qed.
 Lemma census_lk_writes_to_fresh : lk_writes_to_fresh ConcStateGen.lk_field_writes = true.
 Proof. vm_compute. reflexivity. Qed.
 
+(* every function of the token tables that reads To is off the lock-free path (so it runs with sc.mu
+   held), an exported one is one critical section, and no lock-free function writes To *)
+Lemma census_projected_reads :
+  projected_reads_ok ConcStateGen.lockfree_fns ConcStateGen.state_writes = true.
+Proof. vm_compute. reflexivity. Qed.
+
+(* the codec walk: every field a lock-free function reads is written by no lock-free function, and
+   by a locked function only with a classified origin *)
+Lemma census_walk_reads_frozen :
+  walk_reads_frozen ConcStateGen.lockfree_fns ConcStateGen.locked_fns ConcStateGen.lf_read_fields
+                    ConcStateGen.state_writes ConcStateGen.lk_field_writes = true.
+Proof. vm_compute. reflexivity. Qed.
+
+Lemma census_walk : walk_ok = true.
+Proof. vm_compute. reflexivity. Qed.
+
 Lemma census_holds : census_ok = true.
 Proof. vm_compute. reflexivity. Qed.
 
@@ -80,6 +112,48 @@ Proof.
   rewrite E in H. exact H.
 Qed.
 
+Lemma in_strs_In x l : in_strs x l = true <-> In x l.
+Proof.
+  unfold in_strs. rewrite existsb_exists. split.
+  - intros (y & Hy & E). apply String.eqb_eq in E. subst y. exact Hy.
+  - intros H. exists x. split; [exact H | apply String.eqb_refl].
+Qed.
+
+(* the walk obligation in the direction one uses it: pick ANY write of the census to a field that some
+   lock-free function reads — its function is not a lock-free one, and if it is a locked one the
+   classification has an entry for it, which says "object of the critical section in progress" (or
+   RefSchema.To, by one of the four functions of the token tables on the placeholder it registered) *)
+Lemma walk_reads_are_frozen : forall w,
+  In w ConcStateGen.state_writes -> is_field_target (w_target w) = true ->
+  In (strip_field (w_target w)) ConcStateGen.lf_read_fields ->
+  ~ In (w_fn w) ConcStateGen.lockfree_fns /\
+  (In (w_fn w) ConcStateGen.locked_fns ->
+   exists o, In (w_fn w, strip_field (w_target w), o) ConcStateGen.lk_field_writes /\
+             lk_entry_ok (w_fn w, strip_field (w_target w), o) = true).
+Proof.
+  intros w Hw Hf Hr. pose proof census_walk_reads_frozen as H. unfold walk_reads_frozen in H.
+  rewrite forallb_forall in H. specialize (H w Hw).
+  apply in_strs_In in Hr. rewrite Hf, Hr in H. cbn [andb negb orb] in H.
+  apply andb_true_iff in H. destruct H as [Hlf Hlk]. split.
+  - intros Hin. apply in_strs_In in Hin. rewrite Hin in Hlf. discriminate.
+  - intros Hin. apply in_strs_In in Hin. rewrite Hin in Hlk. cbn [negb orb] in Hlk.
+    unfold lk_classified in Hlk. apply existsb_exists in Hlk. destruct Hlk as (e & He & Eq).
+    apply andb_true_iff in Eq. destruct Eq as [E1 E2]. apply String.eqb_eq in E1, E2.
+    destruct e as [[efn ef] eo]. unfold w_fn, w_target in E1, E2. cbn [fst snd] in E1, E2. subst efn ef.
+    exists eo. split; [exact He|].
+    pose proof census_lk_writes_to_fresh as F. unfold lk_writes_to_fresh in F.
+    rewrite forallb_forall in F. exact (F _ He).
+Qed.
+
+(* it discriminates: a write by a locked function that the classification does not list, a lazily
+   filled field written on the lock-free path *)
+Lemma walk_rejects_regressions :
+  walk_reads_frozen ConcStateGen.lockfree_fns ConcStateGen.locked_fns ConcStateGen.lf_read_fields
+                    (unclassified_write :: ConcStateGen.state_writes) ConcStateGen.lk_field_writes = false /\
+  walk_reads_frozen ConcStateGen.lockfree_fns ConcStateGen.locked_fns ConcStateGen.lf_read_fields
+                    (walk_memo_write :: ConcStateGen.state_writes) ConcStateGen.lk_field_writes = false.
+Proof. split; vm_compute; reflexivity. Qed.
+
 (* the checks reject the seeded regressions *)
 Lemma census_rejects_regressions :
   lf_writes_nothing ConcStateGen.lockfree_fns (memo_write :: ConcStateGen.state_writes) = false /\
@@ -87,7 +161,9 @@ Lemma census_rejects_regressions :
   vars_only_initialised (pkg_cache_write :: ConcStateGen.state_writes) = false /\
   holders_hold_only_the_cache (("j5reflect.Reflector.rootProps"%string, "map[string]*j5reflect.propSet"%string, true) :: ConcStateGen.shared_fields) = false /\
   forallb shared_type_ok ("j5reflect.propSet"%string :: ConcStateGen.shared_types) = false /\
-  lk_writes_to_fresh (republish_write :: ConcStateGen.lk_field_writes) = false.
+  lk_writes_to_fresh (republish_write :: ConcStateGen.lk_field_writes) = false /\
+  projected_reads_ok ("j5schema.buildEnumFieldSchema"%string :: ConcStateGen.lockfree_fns) ConcStateGen.state_writes = false /\
+  projected_reads_ok ("j5schema.SchemaCache.schemaLocked"%string :: ConcStateGen.lockfree_fns) ConcStateGen.state_writes = false.
 Proof. repeat split; vm_compute; reflexivity. Qed.
 
 (* ---- the unguarded discipline violates the property ------------------------ *)
